@@ -113,6 +113,12 @@ def _nested_transformer(tree, outer_name):
             cs = [c for c in f.body if isinstance(c, ast.ClassDef) and _is_transformer(c)]
             if len(cs) == 1:
                 return cs[0]
+            if not cs:
+                # hoisted to module level: the one transformer class of the module that the function instantiates
+                made = {n.func.id for n in ast.walk(f) if isinstance(n, ast.Call) and isinstance(n.func, ast.Name)}
+                cs = [c for c in _top_classes(tree) if c.name in made and _is_transformer(c)]
+                if len(cs) == 1:
+                    return cs[0]
     return None
 
 
@@ -241,7 +247,16 @@ def _resolve_generator(tree):
             if isinstance(n, ast.Call) and isinstance(n.func, ast.Attribute) and isinstance(n.func.value, ast.Name) and n.func.value.id == "self" and len(n.args) == 3 and ast.unparse(n.args[0]).endswith(".elt") and ast.unparse(n.args[1]).endswith(".generators"):
                 names.add(n.func.attr)
     ms = _methods(c)
-    return [ms[x] for x in names if x in ms]
+    got = [ms[x] for x in names if x in ms]
+    if got:
+        return got
+    # the lowering does not use self: it may live beside the class as a module-level function the class calls
+    fnames = set()
+    for f in [vl] + [m for m in _methods(c).values() if not m.name.startswith("visit_")]:
+        for n in ast.walk(f):
+            if isinstance(n, ast.Call) and isinstance(n.func, ast.Name) and len(n.args) == 3 and ast.unparse(n.args[0]).endswith(".elt") and ast.unparse(n.args[1]).endswith(".generators"):
+                fnames.add(n.func.id)
+    return [f for f in _top_funcs(tree) if f.name in fnames]
 
 
 def _convert_call_to_dict(tree):
@@ -1198,8 +1213,76 @@ def _split_attr_records(trees: Dict[str, ast.Module]) -> int:
     return n_done
 
 
+def _explicit_visit_dispatch(trees: Dict[str, ast.Module]) -> int:
+    """A visitor class that overrides visit() with `if node.__class__.__name__ == "K": return self.m(node)` .. and hands
+    everything else to the base class's visit(): that is the name-based dispatch of ast.NodeVisitor written out, so the
+    class is read as one that defines visit_K (forwarding to m) and no visit() of its own."""
+    n_done = 0
+    for t in trees.values():
+        for C in [c for c in ast.walk(t) if isinstance(c, ast.ClassDef) and c.bases]:
+            meths = {f.name: f for f in C.body if isinstance(f, ast.FunctionDef)}
+            v = meths.get("visit")
+            if v is None or len(v.args.args) != 2 or v.decorator_list or v.args.vararg or v.args.kwarg or v.args.kwonlyargs:
+                continue
+            sp, np_ = v.args.args[0].arg, v.args.args[1].arg
+            consts = {st.targets[0].id: st.value.value for st in C.body if isinstance(st, ast.Assign) and len(st.targets) == 1 and isinstance(st.targets[0], ast.Name) and isinstance(st.value, ast.Constant) and isinstance(st.value.value, str)}
+            body = [st for st in v.body if not (isinstance(st, ast.Expr) and isinstance(st.value, ast.Constant))]
+
+            def kind_of(test) -> Optional[str]:
+                if isinstance(test, ast.Compare) and len(test.ops) == 1:
+                    l, r = test.left, test.comparators[0]
+                    is_name = (isinstance(l, ast.Attribute) and l.attr == "__name__" and ((isinstance(l.value, ast.Attribute) and l.value.attr == "__class__" and isinstance(l.value.value, ast.Name) and l.value.value.id == np_) or (isinstance(l.value, ast.Call) and isinstance(l.value.func, ast.Name) and l.value.func.id == "type" and len(l.value.args) == 1 and isinstance(l.value.args[0], ast.Name) and l.value.args[0].id == np_)))
+                    if is_name and isinstance(test.ops[0], ast.Eq):
+                        if isinstance(r, ast.Constant) and isinstance(r.value, str):
+                            return r.value
+                        if isinstance(r, ast.Attribute) and isinstance(r.value, ast.Name) and r.value.id == sp and r.attr in consts:
+                            return consts[r.attr]
+                    is_type = isinstance(l, ast.Call) and isinstance(l.func, ast.Name) and l.func.id == "type" and len(l.args) == 1 and isinstance(l.args[0], ast.Name) and l.args[0].id == np_
+                    if is_type and isinstance(test.ops[0], ast.Is) and isinstance(r, ast.Attribute) and isinstance(r.value, ast.Name) and r.value.id == "ast":
+                        return r.attr
+                return None
+
+            def super_visit(e) -> bool:
+                # super().visit(node), directly or through a private method of the class that does nothing else
+                if isinstance(e, ast.Call) and isinstance(e.func, ast.Attribute) and len(e.args) == 1 and isinstance(e.args[0], ast.Name) and not e.keywords:
+                    f = e.func
+                    if f.attr == "visit" and isinstance(f.value, ast.Call) and isinstance(f.value.func, ast.Name) and f.value.func.id == "super":
+                        return True
+                    if isinstance(f.value, ast.Name) and f.value.id == sp and f.attr in meths and f.attr != "visit":
+                        h = meths[f.attr]
+                        hb = [st for st in h.body if not (isinstance(st, ast.Expr) and isinstance(st.value, ast.Constant))]
+                        if len(hb) == 1 and isinstance(hb[0], ast.Return) and len(h.args.args) == 2 and isinstance(hb[0].value, ast.Call) and isinstance(hb[0].value.func, ast.Attribute) and hb[0].value.func.attr == "visit" and isinstance(hb[0].value.func.value, ast.Call) and isinstance(hb[0].value.func.value.func, ast.Name) and hb[0].value.func.value.func.id == "super" and len(hb[0].value.args) == 1 and isinstance(hb[0].value.args[0], ast.Name) and hb[0].value.args[0].id == h.args.args[1].arg:
+                            return True
+                return False
+
+            cases = []
+            ok = bool(body)
+            for i, st in enumerate(body):
+                last = i == len(body) - 1
+                if last:
+                    ok = ok and isinstance(st, ast.Return) and st.value is not None and super_visit(st.value) and st.value.args[0].id == np_
+                    continue
+                k = kind_of(st.test) if isinstance(st, ast.If) and not st.orelse and len(st.body) == 1 and isinstance(st.body[0], ast.Return) else None
+                r = st.body[0].value if k is not None else None
+                if k is None or not (isinstance(r, ast.Call) and isinstance(r.func, ast.Attribute) and isinstance(r.func.value, ast.Name) and r.func.value.id == sp and r.func.attr in meths and len(r.args) == 1 and isinstance(r.args[0], ast.Name) and r.args[0].id == np_ and not r.keywords):
+                    ok = False
+                    break
+                cases.append((k, r.func.attr))
+            if not ok or not cases or len({k for k, _m in cases}) != len(cases) or any(f"visit_{k}" in meths for k, _m in cases) or not all(k.isidentifier() for k, _m in cases):
+                continue
+            C.body = [st for st in C.body if st is not v]
+            for k, mname in cases:
+                fwd = ast.FunctionDef(name=f"visit_{k}", args=ast.arguments(posonlyargs=[], args=[ast.arg(arg=sp), ast.arg(arg=np_)], vararg=None, kwonlyargs=[], kw_defaults=[], kwarg=None, defaults=[]), body=[ast.Return(value=ast.Call(func=ast.Attribute(value=ast.Name(id=sp, ctx=ast.Load()), attr=mname, ctx=ast.Load()), args=[ast.Name(id=np_, ctx=ast.Load())], keywords=[]))], decorator_list=[], returns=None, type_comment=None, type_params=[])
+                ast.copy_location(fwd, v)
+                C.body.append(fwd)
+            ast.fix_missing_locations(t)
+            n_done += 1
+    return n_done
+
+
 def canonicalise(trees: Dict[str, ast.Module]) -> Dict[str, str]:
     """rename renamed private anchors back (in the trees); returns {canonical name: name used in this tree}"""
+    _explicit_visit_dispatch(trees)
     _flatten_private_bases(trees)
     _split_attr_records(trees)
     _alias_methods(trees)
